@@ -873,6 +873,8 @@ def scores_safe(tok, names):
         parts, s = jaro_parts(tok.decode(), n.decode())
         if abs(s - THR) < EPS:
             return False
+        if s < THR:
+            continue               # never inserted: its order does not matter
         for p2, s2 in seen.values():
             if s != s2 and abs(s - s2) < EPS:
                 return False
@@ -1043,41 +1045,34 @@ def pv_item(a):
     items = []
     for n, hid in a["pv"]:
         items.append("(hidden %s)" % hexs(n) if hid else hexs(n))
-    return " (x-pv %s)" % " ".join(items)
+    return "(x-pv %s)" % " ".join(items)
 
 
 def cmd_sx_with_pv(c):
-    """cmd_sx, with `(x-pv ...)` appended to the args that have possible values"""
-    s = gen_cmd.cmd_sx(c)
+    """cmd_sx, with an `(x-pv ...)` extension item in the args that have possible values (carried through
+    gen_cmd.arg_sx in the `help` slot, which this generator does not use otherwise)"""
+    marks = {}
 
-    def walk(cc):
-        nonlocal s
+    def mark(cc):
         for a in cc["args"]:
             if a.get("pv"):
-                head = "(arg %s " % hexs(a["id"])
-                # ids repeat across levels: patch every occurrence that lacks the item, level order = text order
-                start = 0
-                while True:
-                    i = s.find(head, start)
-                    if i < 0:
-                        break
-                    j = i + len(head)
-                    # find the end of this arg item
-                    d, k = 1, i + 1
-                    while d:
-                        if s[k] == "(":
-                            d += 1
-                        elif s[k] == ")":
-                            d -= 1
-                        k += 1
-                    body = s[i:k]
-                    if "(x-pv " not in body and ("(long %s)" % hexs(a["long"]) if a.get("long") else "(short %d)" % ord(a["short"])) in body:
-                        s = s[:k - 1] + pv_item(a) + s[k - 1:]
-                        break
-                    start = k
-        for sub in cc["subs"]:
-            walk(sub)
-    walk(c)
+                m = ("PVMARK%d" % len(marks)).encode()
+                marks[m] = pv_item(a)
+                a["help"] = m
+        for s_ in cc["subs"]:
+            mark(s_)
+
+    def unmark(cc):
+        for a in cc["args"]:
+            if a.get("pv"):
+                a.pop("help", None)
+        for s_ in cc["subs"]:
+            unmark(s_)
+    mark(c)
+    s = gen_cmd.cmd_sx(c)
+    unmark(c)
+    for m, item in marks.items():
+        s = s.replace("(help %s)" % hexs(m), item)
     return s
 
 
@@ -1188,13 +1183,24 @@ def sugg_oracle(stats):
         sx = sx_parse(case)
         root = cmd_of_sx(sx[1][1:])
         argv = [unhex(t) for t in sx[2][1:]]
-        # the level the error was raised at: by annotation when present, else any level of the tree
+        # the level the error was raised at: read from the usage line the error carries ("Usage: prog sub ..."),
+        # else by annotation, else any level of the tree
         lv_sx = sx[1][1:]
         levels = None
-        if ann is not None:
+        path = None
+        mu = re.search(r"\(usage (x[0-9a-f]*)\)", impl)
+        if mu:
+            words = unhex(mu.group(1)).decode("utf-8", "replace").split("\n")[0].split()
+            if len(words) >= 2 and words[0] == "Usage:":
+                # "Usage: prog [--req <V>] sub ...": the plain words after the program name are the chain of
+                # subcommand names (options, <values> and [placeholders] never are plain words)
+                path = [w.encode() for w in words[2:] if w[:1] not in "-<[" and w != "..."]
+        if path is None and ann is not None:
+            path = ann["at"]
+        if path is not None:
             cur, cur_sx = root, lv_sx
             ok = True
-            for nm in ann["at"]:
+            for nm in path:
                 nxt = [(s, ssx) for s, ssx in zip(cur["subs"], [it[1][1:] for it in cur_sx if isinstance(it, list) and it and it[0] == "sub"])
                        if s["name"] == nm]
                 if not nxt:
